@@ -1,5 +1,6 @@
 import Wasp.Model.Broker
 import Wasp.Model.Wire
+import Wasp.Model.BrokerOps
 import Driver.Util
 import Driver.Dist
 import Driver.Auth
@@ -130,7 +131,7 @@ def clientRaw (st : St) (c : String) (can : String) : Option Int :=
 def known (st : St) (c : String) : Bool := st.clients.any (fun e => e.1 == c)
 
 /-- can the client still write to its connection? (closed by the broker, or nobody reads it) -/
-def writable (st : St) (c : String) : Bool := st.w.conns.any (fun e => e.1 == c) && !st.w.deaf.contains c
+def writable (st : St) (c : String) : Bool := Wasp.Broker.writable st.w c
 
 def step (st : St) (line : String) : St × String :=
   match Driver.words line with
@@ -145,41 +146,39 @@ def step (st : St) (line : String) : St × String :=
     if !writable st c then observe st "write-failed" else
     let w := (List.range n.toNat!).foldl (fun (w : World) j =>
       let k := first.toNat! + j
-      w.clientPacket c (.publish (unTopic t) (Driver.toHex [UInt8.ofNat (k / 256), UInt8.ofNat (k % 256)]) q.toNat! false false ((k % 65535 + 1 : Nat) : Int))) st.w
+      applyOp w (.packet c (.publish (unTopic t) (Driver.toHex [UInt8.ofNat (k / 256), UInt8.ofNat (k % 256)]) q.toNat! false false ((k % 65535 + 1 : Nat) : Int)))) st.w
     observe { st with w } "ok"
   | ["connect", c, node, client, mount, ka, will] =>
-    let st := ensureClient st c
-    let st := if (st.w.conns.any (fun e => e.1 == c)) then { st with w := st.w.drop c } else st
-    let st := { st with w := { st.w with out := st.w.out.filter (fun e => e.1 != c) } }
     let authOk := !(mount.startsWith "!")
     let mp := if authOk then mount else (mount.drop 1).toString
-    observe { st with w := st.w.connect c node.toNat! client mp authOk ka.toNat! (parseWillSpec will) } "ok"
+    -- two live records of this client id on the node: which one the real take-over lookup displaces depends on Go's map order
+    if authOk && (sessByClientID (st.w.node node.toNat!).dist mp client).length > 1 then (st, "connect-ambiguous") else
+    let st := ensureClient st c
+    observe { st with w := applyOp st.w (.connect c node.toNat! client mp authOk ka.toNat! (parseWillSpec will)) } "ok"
   | "authfile" :: ls => ({ st with auth := .file (Wasp.Auth.load id (ls.map Driver.Auth.parseLine)) }, "ok")
   | ["authstatic", u, p] => ({ st with auth := .static (Driver.Auth.un u) (Driver.Auth.un p) }, "ok")
   | ["connectas", c, node, client, user, pass, ka, will] =>
     let st := ensureClient st c
-    let st := if (st.w.conns.any (fun e => e.1 == c)) then { st with w := st.w.drop c } else st
-    let st := { st with w := { st.w with out := st.w.out.filter (fun e => e.1 != c) } }
     let plain (s : String) : String := Driver.Auth.un ((s.splitOn "=").headD s)
     let verdict : Option String := match st.auth with
       | .harness => if plain pass = "ok" then some (plain user) else none
       | .file db => Wasp.Auth.authenticate id db (Driver.Auth.fpOf user) (Driver.Auth.fpOf pass)
       | .static cu cp => Wasp.Auth.staticAuthenticate id cu cp (plain user) (plain pass)
     (match verdict with
-     | some m => observe { st with w := st.w.connect c node.toNat! client m true ka.toNat! (parseWillSpec will) } "ok"
-     | none => observe { st with w := st.w.connect c node.toNat! client "" false ka.toNat! (parseWillSpec will) } "ok")
+     | some m => observe { st with w := applyOp st.w (.connect c node.toNat! client m true ka.toNat! (parseWillSpec will)) } "ok"
+     | none => observe { st with w := applyOp st.w (.connect c node.toNat! client "" false ka.toNat! (parseWillSpec will)) } "ok")
   | ["sub", c, mid, spec] =>
     if !known st c then (st, "noclient") else
     if !writable st c then observe st "write-failed" else
-    observe { st with w := st.w.clientPacket c (.subscribe (mid.toInt?.getD 0) (parseSubs spec)) } "ok"
+    observe { st with w := applyOp st.w (.packet c (.subscribe (mid.toInt?.getD 0) (parseSubs spec))) } "ok"
   | ["unsub", c, mid, spec] =>
     if !known st c then (st, "noclient") else
     if !writable st c then observe st "write-failed" else
-    observe { st with w := st.w.clientPacket c (.unsubscribe (mid.toInt?.getD 0) ((spec.splitOn ",").map unTopic)) } "ok"
+    observe { st with w := applyOp st.w (.packet c (.unsubscribe (mid.toInt?.getD 0) ((spec.splitOn ",").map unTopic))) } "ok"
   | ["pub", c, t, p, q, r, d, mid] =>
     if !known st c then (st, "noclient") else
     if !writable st c then observe st "write-failed" else
-    observe { st with w := st.w.clientPacket c (.publish (unTopic t) (if p = "-" then "" else p) q.toNat! (r = "1") (d = "1") (mid.toInt?.getD 0)) } "ok"
+    observe { st with w := applyOp st.w (.packet c (.publish (unTopic t) (if p = "-" then "" else p) q.toNat! (r = "1") (d = "1") (mid.toInt?.getD 0))) } "ok"
   | ["ack", c, kind, can] =>
     if !known st c then (st, "noclient") else
     match clientRaw st c can with
@@ -197,7 +196,7 @@ def step (st : St) (line : String) : St × String :=
       let pkt := match kind with
         | "puback" => CPkt.puback raw | "pubrec" => CPkt.pubrec raw | "pubcomp" => CPkt.pubcomp raw | "pubrel" => CPkt.pubrel raw
         | _ => CPkt.other
-      observe { st with w := st.w.clientPacket c pkt } "ok"
+      observe { st with w := applyOp st.w (.packet c pkt) } "ok"
   | ["ackall", c] =>
     if !known st c then (st, "noclient") else
     let cs := ((st.clients.find? (fun e => e.1 == c)).map (·.2)).getD {}
@@ -209,8 +208,8 @@ def step (st : St) (line : String) : St × String :=
       match (cs.canMid.find? (fun m => m.1 == d.1)).map (·.2) with
       | none => w
       | some raw =>
-        if d.2 = 1 then w.clientPacket c (.puback raw)
-        else (w.clientPacket c (.pubrec raw)).clientPacket c (.pubcomp raw)) st.w
+        if d.2 = 1 then applyOp w (.packet c (.puback raw))
+        else applyOp (applyOp w (.packet c (.pubrec raw))) (.packet c (.pubcomp raw))) st.w
     let (st, out) := observe { st with w } (if todo.isEmpty ∨ writable st c then "ok" else "write-failed")
     -- the identifiers become reusable once their exchanges are complete: forget their numbers
     ({ st with clients := st.clients.map (fun (e : String × CState) =>
@@ -220,10 +219,10 @@ def step (st : St) (line : String) : St × String :=
     let raw := mid.toInt?.getD 0
     if !writable st c then observe st "write-failed" else
     match kind with
-    | "puback" => observe { st with w := st.w.clientPacket c (.puback raw) } "ok"
-    | "pubrec" => observe { st with w := st.w.clientPacket c (.pubrec raw) } "ok"
-    | "pubcomp" => observe { st with w := st.w.clientPacket c (.pubcomp raw) } "ok"
-    | "pubrel" => observe { st with w := st.w.clientPacket c (.pubrel raw) } "ok"
+    | "puback" => observe { st with w := applyOp st.w (.packet c (.puback raw)) } "ok"
+    | "pubrec" => observe { st with w := applyOp st.w (.packet c (.pubrec raw)) } "ok"
+    | "pubcomp" => observe { st with w := applyOp st.w (.packet c (.pubcomp raw)) } "ok"
+    | "pubrel" => observe { st with w := applyOp st.w (.packet c (.pubrel raw)) } "ok"
     | _ => (st, "bad-op")
   | ["ping", c] =>
     if !known st c then (st, "noclient") else
@@ -240,65 +239,52 @@ def step (st : St) (line : String) : St × String :=
       match mc with
       | some (m, cl) =>
         if (sessByClientID n.dist m cl).length > 1 then (st, "ping-ambiguous")
-        else observe { st with w := st.w.clientPacket c .pingreq } "ok"
-      | none => observe { st with w := st.w.clientPacket c .pingreq } "ok"
+        else observe { st with w := applyOp st.w (.packet c .pingreq) } "ok"
+      | none => observe { st with w := applyOp st.w (.packet c .pingreq) } "ok"
   | ["disconnect", c] =>
     if !known st c then (st, "noclient") else
     if !writable st c then observe st "write-failed" else
-    observe { st with w := st.w.clientPacket c .disconnect } "ok"
+    observe { st with w := applyOp st.w (.packet c .disconnect) } "ok"
   | ["drop", c] =>
     if !known st c then (st, "noclient") else
-    observe { st with w := Wasp.Wire.closeFromClient st.w c } "ok"
+    observe { st with w := applyOp st.w (.drop c) } "ok"
   | ["open", c, node] =>
     let st := ensureClient st c
-    observe { st with w := Wasp.Wire.openConn st.w c node.toNat! } "ok"
+    observe { st with w := applyOp st.w (.openConn c node.toNat!) } "ok"
   | ["raw", c, hex] =>
     if !known st c then (st, "noclient") else
     match Driver.fromHex hex with
     | some bs =>
       let r := Wasp.Wire.rawBytes st.w c (bs.map (·.toNat))
-      observe { st with w := r.1 } (if r.2 then "ok" else "write-failed")
+      observe { st with w := applyOp st.w (.raw c (bs.map (·.toNat))) } (if r.2 then "ok" else "write-failed")
     | none => (st, "bad-op")
-  | ["gossip"] => observe { st with w := st.w.gossipAll } "ok"
-  | ["bc", f, t] => observe { st with w := st.w.deliverGossip f.toNat! t.toNat! } "ok"
+  | ["gossip"] => observe { st with w := applyOp st.w .gossipAll } "ok"
+  | ["bc", f, t] => observe { st with w := applyOp st.w (.gossip f.toNat! t.toNat!) } "ok"
   | ["bcone", f, t, k] =>
     let n := st.w.node f.toNat!
     let mine := n.pending.filter (fun e => e.1 == t.toNat!)
     match mine[k.toNat!]? with
     | none => observe st "nosuch"
-    | some e =>
-      -- remove exactly the k-th payload pending for that destination
-      let rec dropKth : List (Nat × Event) → Nat → List (Nat × Event)
-        | [], _ => []
-        | x :: rest, j => if x.1 == t.toNat! then (if j = 0 then rest else x :: dropKth rest (j - 1)) else x :: dropKth rest j
-      let w := st.w.setNode f.toNat! { n with pending := dropKth n.pending k.toNat! }
-      let nd := w.node t.toNat!
-      let w := if nd.failed then w else w.setNode t.toNat! { nd with dist := merge nd.dist e.2 }
-      observe { st with w } "ok"
+    | some _ => observe { st with w := applyOp st.w (.gossipOne f.toNat! t.toNat! k.toNat!) } "ok"
   | ["losegossip", f, t] =>
-    let n := st.w.node f.toNat!
-    ({ st with w := st.w.setNode f.toNat! { n with pending := n.pending.filter (fun e => e.1 != t.toNat!) } }, "ok")
+    ({ st with w := applyOp st.w (.loseGossip f.toNat! t.toNat!) }, "ok")
   | ["sync", f, t] =>
-    let nt := st.w.node t.toNat!
-    observe { st with w := st.w.setNode t.toNat! { nt with dist := merge nt.dist (snapshot (st.w.node f.toNat!).dist) } } "ok"
+    observe { st with w := applyOp st.w (.sync f.toNat! t.toNat!) } "ok"
   | ["unreachable", n, v] =>
-    let nd := st.w.node n.toNat!
-    ({ st with w := st.w.setNode n.toNat! { nd with unreachable := v = "1" } }, "ok")
+    ({ st with w := applyOp st.w (.unreachable n.toNat! (v == "1")) }, "ok")
   | ["logfail", n, what] =>
-    let nd := st.w.node n.toNat!
-    let nd' := match what with
-      | "all" => { nd with logFailAll := true }
-      | "none" => { nd with logFailAll := false, logFailAt := [] }
-      | k => { nd with logFailAt := nd.logFailAt ++ [nd.logCalls + k.toNat!] }
-    ({ st with w := st.w.setNode n.toNat! nd' }, "ok")
-  | ["nodefail", n] => observe { st with w := st.w.nodeFail n.toNat! } "ok"
-  | ["expire", n] => observe { st with w := st.w.sweep n.toNat! } "ok"
-  | ["idle", ms] => observe { st with w := Wasp.Wire.idle st.w (ms.toInt?.getD 0) } "ok"
-  | ["elapse", ms] => observe { st with w := Wasp.Wire.elapse st.w (ms.toInt?.getD 0) } "ok"
+    let op : BOp := match what with
+      | "all" => .logFailAll n.toNat! true
+      | "none" => .logFailNone n.toNat!
+      | k => .logFailAt n.toNat! k.toNat!
+    ({ st with w := applyOp st.w op }, "ok")
+  | ["nodefail", n] => observe { st with w := applyOp st.w (.nodeFail n.toNat!) } "ok"
+  | ["expire", n] => observe { st with w := applyOp st.w (.sweep n.toNat!) } "ok"
+  | ["idle", ms] => observe { st with w := applyOp st.w (.idle (ms.toInt?.getD 0)) } "ok"
+  | ["elapse", ms] => observe { st with w := applyOp st.w (.elapse (ms.toInt?.getD 0)) } "ok"
   | ["state", n] => (st, showState (st.w.node n.toNat!))
   | ["setpool", n, a, b] =>
-    let nd := st.w.node n.toNat!
-    ({ st with w := st.w.setNode n.toNat! { nd with pool := Wasp.IdPool.new (a.toInt?.getD 0) (b.toInt?.getD 0) } }, "ok")
+    ({ st with w := applyOp st.w (.setPool n.toNat! (a.toInt?.getD 0) (b.toInt?.getD 0)) }, "ok")
   | ["pool", n] =>
     (st, s!"free={((st.w.node n.toNat!).pool.ivs.map (fun iv => iv.2 - iv.1)).foldl (· + ·) 0}")
   | ["log", n] => (st, "[" ++ " ".intercalate ((st.w.node n.toNat!).log.map (fun p => s!"{Driver.safe p.topic}={showPl p.payload}")) ++ "]")
@@ -308,7 +294,7 @@ def step (st : St) (line : String) : St × String :=
     | [] => (st, "notfound")
   | ["rpc-publish", n, t, p] =>
     let r := st.w.distribute n.toNat! ⟨t, if p = "-" then "" else p, 0, false, false⟩
-    observe { st with w := r.1 } (if r.2 then "ok" else "err")
+    observe { st with w := applyOp st.w (.rpcPublish n.toNat! t (if p = "-" then "" else p)) } (if r.2 then "ok" else "err")
   | _ => (st, "bad-op")
 
 end Driver.Broker
